@@ -185,7 +185,8 @@ fn pass_2_internal(segment: &Segment, common_context: &CommonContext) -> Result<
                 Item::Instruction(op, _) => format!("instr {:?}", op).to_lowercase(),
                 Item::Data(t, _) => format!("data {:?}", t).to_lowercase(),
                 Item::ReserveData(n) => format!("byte {}", n),
-                _ => "other".to_string(),
+                Item::Pragma(_) => "pragma".to_string(),
+                _ => "sym".to_string(),
             }),
             address_before,
             crate::verif::hex(&code_fragment[length_before..])
